@@ -21,6 +21,8 @@ def selfchecks():
     from vf.ref import bencode, hashing
     bencode.selfcheck()
     hashing.selfcheck()
+    from vf.gen import trees
+    trees.selfcheck()
 
 
 def budget(prop, tier):
